@@ -487,6 +487,15 @@ func runC06(w *World, r *Report) {
 	}
 
 	// ---- handler-args: mode flags reach the interrupt handlers (and every callee of run) unswapped
+	// the interrupt handlers convert what is parked in channels / pending inputs before they build the interrupt error:
+	// a pair table that types an entry with the wrong side makes that conversion fail and a plain error is returned
+	// instead of the interrupt (nothing to extract, no checkpoint) — shared with C05
+	r.Rule("C06.convert-pairs-sided", "the checkpoint conversion tables built in graph.compile type every entry with the right side (receiver: input pair, END: the graph's output pair; sender: output pair, START: the graph's input pair) and every installed pair is written somewhere", 4)
+	streamPairsSetChecks(w, r, "C06.convert-pairs-sided")
+
+	r.Rule("C06.fresh-node-no-checkpoint", "a node scheduled by createTasks (not restored) starts from a context without any checkpoint: clearCheckPoint leaves the context unchanged only when it carries none (shared with C05.nested-once)", 1)
+	clearCheckPointExact(w, r, "C06.fresh-node-no-checkpoint")
+
 	r.Rule("C06.handler-args", "isStream / isSubGraph / checkPointID are passed to every callee of run in their own parameter positions", 6)
 	{
 		isStreamP := run.Params[paramIndex(run, "isStream")]
